@@ -82,7 +82,9 @@ class RecipeReplay:
         o = self.handle(ctx, n)
         if r in ("-", "plate") or not isinstance(o, self.pp.Plate):
             return o
-        return o[self.lab.selector(self.lab.regions[r])]
+        sl = o[self.lab.selector(self.lab.regions[r])]
+        ctx["slices"].append((sl, o, repr(sl.slices)))      # the user's slice object: must never change (C04)
+        return sl
 
     def do_call(self, ctx, c, salt, auto_uses):
         """performs one API call; returns (outcome class, exception)"""
@@ -146,7 +148,7 @@ class RecipeReplay:
             return type(e).__name__, e
 
     def fresh(self):
-        return {"recipe": self.pp.Recipe(), "created": {}, "strangers": {}, "baked": None, "from_pool": {}}
+        return {"recipe": self.pp.Recipe(), "created": {}, "strangers": {}, "baked": None, "from_pool": {}, "slices": []}
 
     # ---- the main loop ------------------------------------------------------------------------------------
     def run(self, stream, auto_uses):
@@ -180,6 +182,12 @@ class RecipeReplay:
         ck = (c["call"], ev["cls"], ev["res"])
         self.by_class[ck] = self.by_class.get(ck, 0) + 1
         self.mon_c16(ev, ctx, out, exc, baked_before)
+        for sl, origin, slices in ctx["slices"]:
+            self.ran("C04")
+            if sl.plate is not origin or repr(sl.slices) != slices:
+                self.report("C04", "slice_argument_changed_by_recipe", {"op": "recipe", "call": c["call"]},
+                            f"a slice passed to the recipe refers to {'another plate object' if sl.plate is not origin else 'other wells'} after {c['call']}", ev)
+                break
         if c["call"] == "bake" and ev["cls"] in ("baked", "step_infeasible"):
             self.mon_bake(ev, ctx, out, exc, pre_fps)
         if len(self.samples) < 3 and ev["res"] == "ok" and c["call"] == "bake" and len(ev["history"]) >= 2:
